@@ -26,6 +26,9 @@ const prelude = `
 (declare-fun bempty () Bytes)
 (declare-fun dyntype (Ref) Int)
 (declare-fun eidx (Int Int) Int)
+(declare-fun addrtag (Ref) Int)
+(declare-fun addrbase (Ref) Ref)
+(assert (= (addrtag nil) 0))
 (declare-sort Time 0)
 (declare-fun zero!Time () Time)
 (declare-fun born (Ref) Int)
@@ -105,6 +108,10 @@ type World struct {
 	globalsRO map[*ssa.Global]bool
 	sizes     types.Sizes
 	roErrGlobals []string
+	lockOrder *lockOrder
+	shortOwner map[string]string
+	fldTags   map[string]int
+	heapArrays map[string]Sort
 }
 
 type Addr struct {
@@ -122,7 +129,7 @@ func NewWorld() *World {
 		D: NewDecls(), typeIDs: map[string]int{}, structDT: map[string]Sort{}, strLits: map[string]Term{},
 		fnRefs: map[string]Term{}, fnByRef: map[string]*ssa.Function{}, addr: map[string]*Addr{},
 		specSyms: map[string]bool{}, notes: map[string]int{}, SSAPkgs: map[string]*ssa.Package{},
-		globalsRO: map[*ssa.Global]bool{},
+		globalsRO: map[*ssa.Global]bool{}, lockOrder: newLockOrder(),
 	}
 }
 
@@ -223,6 +230,15 @@ func (w *World) structName(t types.Type) string {
 		name := obj.Name()
 		if obj.Pkg() != nil {
 			name = obj.Pkg().Name() + "." + name
+			// two packages with the same name (sync / internal/sync): keep names unique
+			if w.shortOwner == nil {
+				w.shortOwner = map[string]string{}
+			}
+			if owner, ok := w.shortOwner[name]; !ok {
+				w.shortOwner[name] = obj.Pkg().Path()
+			} else if owner != obj.Pkg().Path() {
+				name += "_" + shortHash(obj.Pkg().Path())
+			}
 		}
 		if n.TypeArgs() != nil && n.TypeArgs().Len() > 0 {
 			// instantiations with the generic's own type parameters (as seen inside
@@ -259,7 +275,7 @@ func (w *World) structSort(t types.Type, st *types.Struct) Sort {
 	var fs []string
 	for i := 0; i < st.NumFields(); i++ {
 		f := st.Field(i)
-		fs = append(fs, fmt.Sprintf("(%s %s)", smtSym(fmt.Sprintf("%s.%s", name, f.Name())), w.SortOf(f.Type())))
+		fs = append(fs, fmt.Sprintf("(%s %s)", smtSym(accName(name, f.Name(), i)), w.SortOf(f.Type())))
 	}
 	w.dtDecl = append(w.dtDecl, fmt.Sprintf("(declare-datatype %s ((%s %s)))", sym, smtSym("mk_"+name), strings.Join(fs, " ")))
 	return Sort(sym)
@@ -277,7 +293,7 @@ func (w *World) StructGet(t types.Type, v Term, i int) Term {
 	w.structSort(t, st)
 	name := "S_" + w.structName(t)
 	f := st.Field(i)
-	return App(w.SortOf(f.Type()), smtSym(fmt.Sprintf("%s.%s", name, f.Name())), v)
+	return App(w.SortOf(f.Type()), smtSym(accName(name, f.Name(), i)), v)
 }
 
 // Zero returns the zero value of a Go type.
@@ -485,7 +501,12 @@ func (w *World) ElemArray(elem types.Type) (string, Sort) {
 func (w *World) MapArrays(m *types.Map) (pn string, ps Sort, vn string, vs Sort) {
 	k := w.SortOf(m.Key())
 	v := w.SortOf(m.Elem())
+	// Go's type system separates maps of different (key, element) types: one pair of
+	// arrays per map type. Type parameters are opaque (one class per sort).
 	tag := sortTag(k) + "_" + sortTag(v)
+	if !hasTypeParam(m.Key()) && !hasTypeParam(m.Elem()) {
+		tag += "_" + shortHash(types.TypeString(m.Key(), nil)+"=>"+types.TypeString(m.Elem(), nil))
+	}
 	return "MapP_" + tag, ArraySort(SRef, ArraySort(k, SBool)), "MapV_" + tag, ArraySort(SRef, ArraySort(k, v))
 }
 
@@ -528,4 +549,38 @@ func asStruct(t types.Type) (*types.Struct, bool) {
 	}
 	st, ok := t.Underlying().(*types.Struct)
 	return st, ok
+}
+
+func (w *World) fldTagsAsAny() map[string]int {
+	if w.fldTags == nil {
+		return map[string]int{}
+	}
+	return w.fldTags
+}
+
+func hasTypeParam(t types.Type) bool {
+	switch x := t.(type) {
+	case *types.TypeParam:
+		return true
+	case *types.Pointer:
+		return hasTypeParam(x.Elem())
+	case *types.Slice:
+		return hasTypeParam(x.Elem())
+	case *types.Named:
+		if x.TypeArgs() != nil {
+			for i := 0; i < x.TypeArgs().Len(); i++ {
+				if hasTypeParam(x.TypeArgs().At(i)) {
+					return true
+				}
+			}
+		}
+	}
+	return false
+}
+
+func accName(structName, field string, idx int) string {
+	if field == "_" {
+		return fmt.Sprintf("%s._%d", structName, idx)
+	}
+	return structName + "." + field
 }
